@@ -36,7 +36,7 @@ MIN_NONTRIVIAL = {"quick": 300, "thorough": 6000}
 REACH_FLOORS = {"examples_expected": 1000, "cases_drawn": 800, "engine_runs": 5, "operations_without_examples": 20}
 SHARD_TIMEOUT = {"quick": 900, "thorough": 5400}
 
-PLACEMENTS = ["param_example", "param_examples", "param_schema_example", "param_schema_examples", "media_example", "media_examples", "media_examples_ref", "body_schema_example", "property_example", "branch_example", "falsy_property_example", "allof_property_example"]
+PLACEMENTS = ["param_example", "param_examples", "param_schema_example", "param_schema_examples", "media_example", "media_examples", "media_examples_ref", "body_schema_example", "property_example", "branch_example", "falsy_property_example", "allof_property_example", "unsendable_header_example"]
 
 
 def plan(tier, seed):
@@ -65,6 +65,12 @@ def gen_document(rng, version):
     chosen = set(rng.sample(PLACEMENTS, rng.randint(0, 5)))
     if rng.random() < 0.12:
         chosen = set()
+    single = False
+    if "unsendable_header_example" in chosen:
+        # one header example that cannot be sent next to a good one; everything else has at most one example, so every
+        # other example is part of the combination that CAN be sent
+        chosen = {"param_examples", "unsendable_header_example"} | ({"media_example"} if rng.random() < 0.5 else set())
+        single = True
     ex_field, exs_field = ("example", "examples") if three else ("x-example", "x-examples")
     components_examples = {}
 
@@ -75,11 +81,16 @@ def gen_document(rng, version):
         mk = marker.integer if ptype == "integer" else marker.string
         if "param_example" in chosen and rng.random() < 0.6:
             v = mk()
-            p[ex_field] = v
+            # in 2.0 both spellings are in use: `x-example` and the plain `example`
+            p[ex_field if three or rng.random() < 0.5 else "example"] = v
             expected.append({"op": label, "where": (where, name), "value": v, "placement": "param_example"})
-        if "param_examples" in chosen and rng.random() < 0.6:
+        if "param_examples" in chosen and (rng.random() < 0.6 or (single and where == "header")):
             p[exs_field] = {}
-            for i in range(rng.randint(1, 3)):
+            if where == "header" and "unsendable_header_example" in chosen:
+                # cannot be sent over HTTP at all: to be reported for the operation, the other examples still go out
+                p[exs_field]["bad"] = {"value": "line\nbreak"}
+                expected.append({"op": label, "where": (where, name), "value": "line\nbreak", "placement": "unsendable_header_example", "unsendable": True})
+            for i in range(1 if single else rng.randint(1, 3)):
                 v = mk()
                 p[exs_field][f"e{i}"] = {"value": v}
                 expected.append({"op": label, "where": (where, name), "value": v, "placement": "param_examples"})
@@ -239,7 +250,10 @@ def run_shard(spec, emit):
     n_docs = 250 if tier == "quick" else 3000
     deadline = time.monotonic() + (80 if tier == "quick" else 300)
     samples = 0
+    if shard == 0:
+        unsendable_combination_probe(emit, seed)
     engine_budget = 1 if tier == "quick" else 6
+    unsendable_budget = 1 if tier == "quick" else 4
     for d in range(n_docs):
         if time.monotonic() > deadline:
             break
@@ -276,6 +290,8 @@ def run_shard(spec, emit):
         if not expected and cases:
             viols.append(("C17/cases-for-operation-without-examples", f"{len(cases)} cases although the document has no example for this operation"))
         for item in expected:
+            if item.get("unsendable"):
+                continue
             if not any(occurs(item, v) for v in views):
                 viols.append((classify_missing(item), f"{item['where']} = {item['value']!r} ({item['placement']}) occurs in none of the {len(cases)} cases"))
         for case, view in zip(cases, views):
@@ -298,7 +314,10 @@ def run_shard(spec, emit):
         for key, what in viols:
             emit.viol(key, what, context)
         # sample: the real examples phase
-        if expected and engine_budget > 0 and rng.random() < 0.15:
+        has_unsendable = any(i.get("unsendable") for i in expected)
+        if expected and ((engine_budget > 0 and rng.random() < 0.15) or (has_unsendable and unsendable_budget > 0)):
+            if has_unsendable:
+                unsendable_budget -= 1
             engine_budget -= 1
             from vmon.instr import engine
 
@@ -311,13 +330,50 @@ def run_shard(spec, emit):
             rviews = [view_of_request(r) for r in reqs if r["path"].startswith("/items/")]
             errors = [e for e in result.events if e["type"] == "NonFatalError"]
             for item in expected:
-                if not any(occurs(item, v) for v in rviews) and not errors:
+                if item.get("unsendable"):
+                    emit.count("unsendable_examples")
+                    if not errors:
+                        emit.viol("C17/unsendable-example-not-reported:engine", f"{item['where']} = {item['value']!r}: no error event for the operation", context)
+                    continue
+                # an error reported for the operation excuses only the example that cannot be sent
+                if not any(occurs(item, v) for v in rviews) and (has_unsendable or not errors):
                     emit.viol(classify_missing(item) + ":engine", f"{item['where']} = {item['value']!r} not in any of {len(rviews)} examples-phase requests", context)
             if any(r["path"].startswith("/plain") for r in reqs):
                 emit.viol("C17/request-for-operation-without-examples:engine", "GET /plain was requested in the examples phase", context)
             skipped = [e for e in result.events if e["type"] == "ScenarioFinished" and e["label"] == "GET /plain" and e["phase"] == "EXAMPLES"]
             if skipped and skipped[0]["status"] != "SKIP":
                 emit.viol("C17/operation-without-examples-not-skipped:engine", f"status {skipped[0]['status']}", context)
+
+
+def unsendable_combination_probe(emit, seed):
+    """A fixed document: header X-H with examples [unsendable, good], query q1 with three examples. The combinations are
+    formed round-robin, so two of the three contain the unsendable header and are dropped as a whole: their other
+    examples are sendable but never sent (known finding, keyed by this mechanism)."""
+    from vmon.instr import engine
+
+    doc = {
+        "openapi": "3.0.2",
+        "info": {"title": "t", "version": "1"},
+        "paths": {
+            "/items": {
+                "get": {
+                    "parameters": [
+                        {"name": "q1", "in": "query", "required": True, "schema": {"type": "string"}, "examples": {"a": {"value": "ex-a"}, "b": {"value": "ex-b"}, "c": {"value": "ex-c"}}},
+                        {"name": "X-H", "in": "header", "schema": {"type": "string"}, "examples": {"bad": {"value": "line\nbreak"}, "good": {"value": "fine"}}},
+                    ],
+                    "responses": {"200": {"description": "ok"}},
+                }
+            }
+        },
+    }
+    result = engine.run_api(doc, {"phases": ["examples"], "seed": seed + 1}, timeout=100)
+    if result.hung:
+        return
+    emit.count("unsendable_combination_probes")
+    sent = {v for r in result.test_requests() for k, v in parse_qsl(r["query"], keep_blank_values=True) if k == "q1"}
+    for value in ("ex-a", "ex-b", "ex-c"):
+        if value not in sent:
+            emit.viol("C17/example-never-sent:combined-with-unsendable-header-example", f"q1 = {value!r} was only combined with the header example that cannot be sent; requests carried q1 in {sorted(sent)}", {"doc": doc})
 
 
 def replay(case):
